@@ -178,4 +178,15 @@ HARNESSES = [
     ),
 ]
 
+from harness.c05 import h05_rabbit, h05_redis  # noqa: E402
+
+HARNESSES += [
+    Harness(name="H06-rabbit-reschedule", scenario=h05_rabbit, params={"quick": {"via": "requeue"}, "thorough": {"via": "requeue"}},
+            bounds={"next slot, publish instant": "any µs in 2000..2100 (periods and deferred starts from sub-second to 100 years)"},
+            functions=["connections/rabbitmq/message_broker.py:RabbitMessageBroker.requeue"], covers=["published-delayed"],
+            outside=["RabbitMQ's own expiry timing (server)"], stubs=["fake AMQP channel records the publish"]),
+    Harness(name="H06-redis-reschedule", scenario=h05_redis, workers=4, params={"quick": {"via": "requeue"}, "thorough": {"via": "requeue"}},
+            bounds={"next slot, requeue instant, consume instant": "any µs in 2000..2050"},
+            functions=["connections/redis/message_broker.py:RedisMessageBroker.requeue"], covers=["delivered", "held-back"], stubs=["fake Redis server"]),
+]
 ASSUMPTIONS = ["in-memory broker; iteration finish instants are free symbolic values constrained only by 'after its slot, non-decreasing'"]
